@@ -445,8 +445,8 @@ func (c *Ctx) RetAlts(x *X) []RetAlt {
 	var out []RetAlt
 	for _, b := range f.Blocks {
 		ret, ok := b.Instrs[len(b.Instrs)-1].(*ssa.Return)
-		if !ok || idx >= len(ret.Results) {
-			continue
+		if !ok || idx >= len(ret.Results) || b.Comment == "recover" {
+			continue // (the recover block returns only after a recovered panic: not a way the helper hands a value back)
 		}
 		if len(out) >= 8 {
 			return nil
